@@ -48,25 +48,25 @@ theorem step1_eq (P : Params) (back : Surface) (x : P1) (r c : Nat) :
 /-- the front surface after the first pass (well-placed surfaces): cells under wide characters are
 zero-width, glyphs are replaced by their images -/
 def normR (P : Params) (s : Surface) : Surface :=
-  fun r c => if shadowed P s r c then nulCell else rasterise P (s r c)
+  fun r c => if shadowedRaw P s r c then nulCell else rasterise P (s r c)
 
 structure ShInv (P : Params) (s : Surface) (r c : Nat) (sh : Nat × Nat) : Prop where
-  sh1 : shadowed P s r c = true ↔ (sh.1 = r ∧ c < sh.2)
+  sh1 : shadowedRaw P s r c = true ↔ (sh.1 = r ∧ c < sh.2)
   sh2 : sh.1 = r → sh.2 ≤ c + 1
   shr : sh.1 ≤ r
 
 theorem normalise_spec (P : Params) (s : Surface) (r c : Nat) (x : P1) (hx : ShInv P s r c x.shadow)
     (hfr : x.front r c = s r c)
-    (hmk : isWide P (s r c) = true → shadowed P s r c = false → x.marks r c ≠ .ignored)
+    (hmk : isWide P (s r c) = true → shadowedRaw P s r c = false → x.marks r c ≠ .ignored)
     (hw2 : ∀ ch, (s r c).kind = .chr ch → P.width ch ≤ 2) :
-    (normalise P x r c).1 = (if shadowed P s r c then nulCell else s r c) ∧
+    (normalise P x r c).1 = (if shadowedRaw P s r c then nulCell else s r c) ∧
     ShInv P s r (c + 1) (normalise P x r c).2 := by
   by_cases hsh : r = x.shadow.1 ∧ c < x.shadow.2
-  · have hshd : shadowed P s r c = true := hx.sh1.2 ⟨hsh.1.symm, hsh.2⟩
+  · have hshd : shadowedRaw P s r c = true := hx.sh1.2 ⟨hsh.1.symm, hsh.2⟩
     have hn : normalise P x r c = (nulCell, x.shadow) := by simp [normalise, hsh]
     rw [hn]
     refine ⟨by simp [hshd], ?_, ?_, hx.shr⟩
-    · simp only [shadowed, hshd, Bool.not_true, Bool.and_false]
+    · simp only [shadowedRaw, hshd, Bool.not_true, Bool.and_false]
       constructor
       · intro h; cases h
       · rintro ⟨h1, h2⟩
@@ -75,8 +75,8 @@ theorem normalise_spec (P : Params) (s : Surface) (r c : Nat) (x : P1) (hx : ShI
         have := hx.sh2 h1'
         omega
     · intro h; have h' : x.shadow.1 = r := h; have := hx.sh2 h'; show x.shadow.2 ≤ c + 1 + 1; omega
-  · have hshd : shadowed P s r c = false := by
-      cases h : shadowed P s r c
+  · have hshd : shadowedRaw P s r c = false := by
+      cases h : shadowedRaw P s r c
       · rfl
       · exact absurd (hx.sh1.1 h) (fun h' => hsh ⟨h'.1.symm, h'.2⟩)
     by_cases hwide : isWide P (s r c) = true
@@ -88,7 +88,7 @@ theorem normalise_spec (P : Params) (s : Surface) (r c : Nat) (x : P1) (hx : ShI
       have hw2' := hw2 ch hk
       rw [hn]
       refine ⟨by simp [hshd], ?_, ?_, Nat.le_refl r⟩
-      · simp only [shadowed, hwide, hshd, Bool.not_false, Bool.and_self, true_iff]
+      · simp only [shadowedRaw, hwide, hshd, Bool.not_false, Bool.and_self, true_iff]
         exact ⟨trivial, by omega⟩
       · intro _; show c + P.width ch ≤ c + 1 + 1; omega
     · have hwf : isWide P (s r c) = false := by
@@ -110,7 +110,7 @@ theorem normalise_spec (P : Params) (s : Surface) (r c : Nat) (x : P1) (hx : ShI
           · rfl
       rw [hn]
       refine ⟨by simp [hshd], ?_, ?_, hx.shr⟩
-      · simp only [shadowed, hwf, Bool.false_and]
+      · simp only [shadowedRaw, hwf, Bool.false_and]
         constructor
         · intro h; cases h
         · rintro ⟨h1, h2⟩
@@ -167,14 +167,14 @@ theorem covers_self (P : Params) (s : Surface) (q : Nat × Nat) (i : Nat) (hi : 
 
 /-- in a well-placed surface an image cell is never covered by a wide character -/
 theorem wp_img_not_shadowed (P : Params) (H W : Nat) (s : Surface) (hs : WellPlaced P H W s) (r c : Nat)
-    (hr : r < H) (hc : c < W) (hi : imgOf P (s r c) ≠ none) : shadowed P s r c = false := by
+    (hr : r < H) (hc : c < W) (hi : imgOf P (s r c) ≠ none) : shadowedRaw P s r c = false := by
   cases c with
   | zero => rfl
   | succ c =>
-    cases h : shadowed P s r (c + 1)
+    cases h : shadowedRaw P s r (c + 1)
     · rfl
     · exfalso
-      simp only [shadowed, Bool.and_eq_true, Bool.not_eq_true'] at h
+      simp only [shadowedRaw, Bool.and_eq_true, Bool.not_eq_true'] at h
       obtain ⟨i, hi'⟩ := Option.ne_none_iff_exists'.1 hi
       obtain ⟨_, _, w3, _, w5⟩ := hs
       obtain ⟨s1, s2, _, _⟩ := w3 r (c + 1) i hr hc hi'
@@ -256,7 +256,7 @@ theorem step1_general (P : Params) (st : State) (s : Surface) (hs : WellPlaced P
   have hs' : WellPlaced P st.h st.w s := ⟨w1, w2, w3, w4, w5⟩
   have hfr : x.front r c = s r c := by rw [hx.front r c]; simp
   -- a wide character is never ignored when visited
-  have hmk : isWide P (s r c) = true → shadowed P s r c = false → x.marks r c ≠ .ignored := by
+  have hmk : isWide P (s r c) = true → shadowedRaw P s r c = false → x.marks r c ≠ .ignored := by
     intro hw _ hi
     obtain ⟨q, _, hq, hcov⟩ := hx.m1 r c hi
     rw [(w5 q r c hq.1 hq.2 hr hc hw).1] at hcov
@@ -272,7 +272,7 @@ theorem step1_general (P : Params) (st : State) (s : Surface) (hs : WellPlaced P
   -- image of the new cell / of the old cell
   have ho : imgK (normR P s r c) = imgOf P (s r c) := by
     unfold normR
-    cases hsh : shadowed P s r c
+    cases hsh : shadowedRaw P s r c
     · simp [imgK_rasterise]
     · simp only [if_true]
       cases hi : imgOf P (s r c) with
@@ -538,8 +538,8 @@ theorem step1_general (P : Params) (st : State) (s : Surface) (hs : WellPlaced P
     · by_cases hsk : skip
       · right
         have hk' : (st.back r c).kind = .img i := hk
-        have hnsh : shadowed P s r c = false := by
-          cases hsh : shadowed P s r c
+        have hnsh : shadowedRaw P s r c = false := by
+          cases hsh : shadowedRaw P s r c
           · rfl
           · exfalso
             have : normR P s r c = nulCell := by simp [normR, hsh]
@@ -626,7 +626,7 @@ theorem pass1Row_general (P : Params) (st : State) (s : Surface) (hs : WellPlace
         · omega
     simp only [this]
   · have := h.sh.shr
-    simp only [shadowed]
+    simp only [shadowedRaw]
     constructor
     · intro h'; cases h'
     · rintro ⟨h1, _⟩; omega
@@ -666,7 +666,7 @@ theorem pass1_general (P : Params) (st : State) (s : Surface) (hs : WellPlaced P
       · intro r' c'
         have : ¬ ((r' < 0 ∨ r' = 0 ∧ c' < 0) ∧ c' < st.w) := by omega
         simp [this]
-      · simp [shadowed]
+      · simp [shadowedRaw]
       · intro _; simp
       · simp
       · intro r' c' hi; exact absurd hi (hb.noign r' c')
